@@ -150,9 +150,15 @@ Section Hdr.
     Forall (fun x => okS x -> okS (h x)) l -> all_p okS l -> all_p okS (map h l).
   Proof. induction 1 as [|x r Hx _ IH]; cbn; [tauto|]. intros [H1 H2]. split; [now apply Hx|now apply IH]. Qed.
 
+  Lemma after_amp_okS_gen t : ty_okS t -> ty_okS (after_amp t).
+  Proof. intros H. unfold after_amp. destruct t as [| | | | | | | | |bs]; try exact H. destruct bs as [|? [|? ?]]; exact H. Qed.
+
   Section Expand.
     Variable to : ty.
     Hypothesis Hto : ty_okS to.
+
+    Lemma after_amp_okS : ty_okS (after_amp to).
+    Proof. apply after_amp_okS_gen. exact Hto. Qed.
 
     Lemma expand_self_okS_all : forall t, ty_okS t -> ty_okS (expand_self_ty to t).
     Proof.
@@ -166,10 +172,12 @@ Section Hdr.
         cbn [ty_okS] in *. destruct H as [H1 H2]. split; [|now apply all_p_map].
         destruct q as [[qt k]|]; [cbn [Pq fst] in Hq; now apply Hq | exact I].
       - intros lt mt t IH H. cbn [expand_self_ty is_self_ty ty_okS] in *. destruct H; split; auto.
+        destruct (is_self_ty t); [exact after_amp_okS | auto].
       - intros ts IH H. cbn [expand_self_ty is_self_ty ty_okS] in *. now apply all_p_map.
       - intros t len IH H. cbn [expand_self_ty is_self_ty ty_okS] in *. destruct H; split; auto.
       - intros t IH H. cbn [expand_self_ty is_self_ty ty_okS] in *. auto.
-      - intros mt t IH H. cbn [expand_self_ty is_self_ty ty_okS] in *. auto.
+      - intros mt t IH H. cbn [expand_self_ty is_self_ty ty_okS] in *.
+        destruct (is_self_ty t); [exact after_amp_okS | auto].
       - intros args ret IHa IHr H. cbn [expand_self_ty is_self_ty ty_okS] in *. destruct H as [H1 H2].
         split; [now apply all_p_map|]. destruct ret as [r|]; [now apply IHr|exact I].
       - intros _. exact I.
